@@ -365,6 +365,13 @@ func (g *Gen) runDeferred(st *State, d deferred) {
 	case *ssa.MakeClosure:
 		g.closureCall(st, callee.Fn.(*ssa.Function), callee, d.Args, resTy, pos)
 	case *ssa.Builtin:
+		if callee.Name() == "close" && g.C != nil && g.C.ChanState && len(d.Args) == 1 && d.Args[0].K == VScalar && d.Args[0].T != nil {
+			n := "O:ghost.closed"
+			h := g.heapGet(st, n, ArraySort(SInt, SInt))
+			g.oblige(st, "chan-close", "", "close of a channel that is already closed (ghost closed)", pos, Eq(Select(h, d.Args[0].T), IntLit(0)))
+			g.heapSet(st, n, ArraySort(SInt, SInt), Store(g.heapGet(st, n, ArraySort(SInt, SInt)), d.Args[0].T, IntLit(1)))
+			return
+		}
 		if callee.Name() == "close" || callee.Name() == "recover" {
 			return
 		}
